@@ -379,12 +379,15 @@ both('t_maca_core', MC,
 # struct patterns with shorthand fields inside a macro body (renaming a shorthand field needs the long form)
 PT_PRE = '   #[derive(Clone, PartialEq, Eq, Hash, Debug)] pub struct Pt { pub t: i32, pub u: i32 }'
 MCS = MC + ['relation pt(i32, Pt)']
-both('t_macs_sugar', MCS, [], body=['pub struct P;'] + [d + ';' for d in MCS] + ['macro pick($x: expr, $r: ident) { pt($x, ?Pt { t, u }), let $r = t + u }'] + [
+both('t_macs_sugar', MCS, [], body=['pub struct P;'] + [d + ';' for d in MCS] + ['macro pick($x: expr, $r: ident) { pt($x, ?Pt { t, u }), let $r = t + u }',
+     'macro mk($x: expr, $r: ident) { p($x, w), let t = *w, let u = t + 1, let $r = Pt { t, u } }'] + [
      'r(x, s) <-- k(x), pick!(x, s);',
-     'r(t, s) <-- k(t), pick!(t, s), pick!(t + 1, s2), if s2 > s;'], pre=PT_PRE, tags=['twin'], twin=('t_macs_core', 'L'))
+     'r(t, s) <-- k(t), pick!(t, s), pick!(t + 1, s2), if s2 > s;',
+     'pt(x, q) <-- k(x), let t = 3, let u = 4, if t < u, mk!(x, q);'], pre=PT_PRE, tags=['twin'], twin=('t_macs_core', 'L'))
 both('t_macs_core', MCS,
      ['r(x, s) <-- k(x), pt(x, ?Pt { t: t1, u: u1 }), let s = t1 + u1',
-      'r(t, s) <-- k(t), pt(t, ?Pt { t: t1, u: u1 }), let s = t1 + u1, pt((t + 1), ?Pt { t: t2, u: u2 }), let s2 = t2 + u2, if s2 > s'], pre=PT_PRE, tags=['twin'])
+      'r(t, s) <-- k(t), pt(t, ?Pt { t: t1, u: u1 }), let s = t1 + u1, pt((t + 1), ?Pt { t: t2, u: u2 }), let s2 = t2 + u2, if s2 > s',
+      'pt(x, q) <-- k(x), let t = 3, let u = 4, if t < u, p(x, w1), let t1 = *w1, let u1 = t1 + 1, let q = Pt { t: t1, u: u1 }'], pre=PT_PRE, tags=['twin'])
 # the name spaces of the macro's fresh identifiers are disjoint: hygiene of in-program macros / repeated variables / ?pattern arguments
 MACF = ['macro m1($r: ident) { $r(x) }',
         'macro m2($a: expr) { edge($a, arg_pattern), k(arg_pattern) }',
